@@ -103,7 +103,7 @@ fn dfs(region: &mut Vec<u8>, off: usize, ts: usize, out: &mut Vec<Hex>) {
     let remaining = ts - off;
     let saved: [u8; 8] = region[off..off + 8].try_into().unwrap();
     for size in 0..=(remaining + 9) {
-        let typ = [1u32, 3, 0x1337][(off / 8 + size) % 3];
+        let typ = [1u32, 3, 0x1337, 0xE852_50D6, 0x36D7_6289][(off / 8 + size) % 5];
         put32(region, off, typ);
         put32(region, off + 4, size as u32);
         if size < 8 || size > remaining {
@@ -138,6 +138,186 @@ pub enum Op {
 pub struct HistCase {
     pub region: Hex,
     pub ops: Vec<Op>,
+    /// a second boot information alive at the same time
+    #[serde(default)]
+    pub other: Option<Hex>,
+    /// which of the two each op addresses (parallel to `ops`)
+    #[serde(default)]
+    pub on: Vec<u8>,
+}
+
+struct Obj<'a> {
+    mbi: &'a multiboot2::BootInformation<'a>,
+    w: Walk,
+    base: usize,
+    /// model iterator = index into the walk; None = poisoned by a panic
+    model: Vec<Option<usize>>,
+    real: Vec<Option<multiboot2::TagIter<'a>>>,
+    mid_clone: bool,
+}
+
+impl<'a> Obj<'a> {
+    fn new(mbi: &'a multiboot2::BootInformation<'a>, base: usize, bytes: &[u8]) -> Self {
+        Self { mbi, w: walk_mbi(bytes), base, model: Vec::new(), real: Vec::new(), mid_clone: false }
+    }
+
+    fn apply(&mut self, step: usize, op: &Op) -> Result<(), String> {
+        let Self { mbi, w, base, model, real, mid_clone } = self;
+        let base = *base;
+        let mbi: &'a multiboot2::BootInformation<'a> = *mbi;
+        {
+        match op {
+                Op::Fresh => {
+                    if real.len() < 4 {
+                        real.push(Some(mbi.tags()));
+                        model.push(Some(0));
+                    }
+                }
+                Op::Clone(i) => {
+                    if real.is_empty() || real.len() >= 4 {
+                        return Ok(());
+                    }
+                    let i = *i as usize % real.len();
+                    if let (Some(r), Some(m)) = (&real[i], model[i]) {
+                        if m > 0 && m < w.items.len() {
+                            *mid_clone = true;
+                        }
+                        real.push(Some(r.clone()));
+                        model.push(Some(m));
+                    }
+                }
+                Op::Next(i) => {
+                    if real.is_empty() {
+                        return Ok(());
+                    }
+                    let i = *i as usize % real.len();
+                    let (Some(r), Some(m)) = (real[i].as_mut(), model[i]) else { return Ok(()) };
+                    let got = mb2_model::panics::catch(|| r.next().map(|t| (t as *const _ as *const u8 as usize - base, u32::from(t.header().typ), t.header().size, t.payload().as_ptr() as usize - base, t.payload().len())));
+                    if m < w.items.len() {
+                        let it = w.items[m];
+                        let want = Some(Some((it.off, it.typ, it.size, it.off + 8, it.size as usize - 8)));
+                        if got != want {
+                            return Err(format!("step {step}: iterator {i} at index {m}: expected {want:?}, got {got:?}"));
+                        }
+                        model[i] = Some(m + 1);
+                    } else if w.panic_at == Some(m) {
+                        if got.is_some() {
+                            return Err(format!("step {step}: iterator {i}: the walk must end in a controlled panic at index {m}, got {got:?}"));
+                        }
+                        // state after a panic is unspecified: retire this iterator
+                        model[i] = None;
+                        real[i] = None;
+                    } else {
+                        // exhausted: must stay exhausted
+                        if got != Some(None) {
+                            return Err(format!("step {step}: iterator {i} is exhausted after {m} items, got {got:?}"));
+                        }
+                    }
+                }
+                Op::Nth(i, k) => {
+                    if real.is_empty() {
+                        return Ok(());
+                    }
+                    let i = *i as usize % real.len();
+                    let k = (*k % 5) as usize;
+                    let (Some(r), Some(m)) = (real[i].as_mut(), model[i]) else { return Ok(()) };
+                    let got = mb2_model::panics::catch(|| r.nth(k).map(|t| t as *const _ as *const u8 as usize - base));
+                    let target = m + k;
+                    // the model panics if the walk's panic point lies at or before the target
+                    let must_panic = w.panic_at.map_or(false, |p| p >= m && p <= target);
+                    if must_panic {
+                        if got.is_some() {
+                            return Err(format!("step {step}: iterator {i}: nth({k}) from index {m} must end in a controlled panic (walk panics at {:?}), got {got:?}", w.panic_at));
+                        }
+                        model[i] = None;
+                        real[i] = None;
+                    } else if target < w.items.len() {
+                        if got != Some(Some(w.items[target].off)) {
+                            return Err(format!("step {step}: iterator {i}: nth({k}) from index {m}: expected the tag at offset {}, got {got:?}", w.items[target].off));
+                        }
+                        model[i] = Some(target + 1);
+                    } else {
+                        if got != Some(None) {
+                            return Err(format!("step {step}: iterator {i}: nth({k}) from index {m} of {} items: expected None, got {got:?}", w.items.len()));
+                        }
+                        model[i] = Some(w.items.len());
+                    }
+                }
+                Op::Count(i) | Op::Last(i) => {
+                    if real.is_empty() {
+                        return Ok(());
+                    }
+                    let i = *i as usize % real.len();
+                    let (Some(r), Some(m)) = (real[i].as_ref(), model[i]) else { return Ok(()) };
+                    let m = m.min(w.items.len());
+                    let must_panic = w.panic_at.map_or(false, |p| p >= m);
+                    if let Op::Count(_) = op {
+                        let got = mb2_model::panics::catch(|| r.clone().count());
+                        let want = if must_panic { None } else { Some(w.items.len() - m) };
+                        if got != want {
+                            return Err(format!("step {step}: iterator {i}: clone().count() at index {m}: expected {want:?}, got {got:?}"));
+                        }
+                    } else {
+                        let got = mb2_model::panics::catch(|| r.clone().last().map(|t| t as *const _ as *const u8 as usize - base));
+                        let want = if must_panic { None } else { Some(if m < w.items.len() { w.items.last().map(|x| x.off) } else { None }) };
+                        if got != want {
+                            return Err(format!("step {step}: iterator {i}: clone().last() at index {m}: expected {want:?}, got {got:?}"));
+                        }
+                    }
+                }
+                Op::ModulesNth(k) => {
+                    let k = (*k % 4) as usize;
+                    let mut mods = Vec::new();
+                    let mut must_panic = w.panic_at.is_some();
+                    for it in w.items.iter().filter(|i| i.typ == 3) {
+                        if it.size < 16 {
+                            must_panic = true;
+                            break;
+                        }
+                        mods.push(it.off);
+                    }
+                    let got = mb2_model::panics::catch(|| mbi.module_tags().nth(k).map(|t| t as *const _ as *const u8 as usize - base));
+                    // nth(k) only needs the walk up to the k-th module
+                    if k < mods.len() {
+                        if got != Some(Some(mods[k])) {
+                            return Err(format!("step {step}: module_tags().nth({k}): expected the module at {}, got {got:?}", mods[k]));
+                        }
+                    } else if must_panic {
+                        if got.is_some() {
+                            return Err(format!("step {step}: module_tags().nth({k}) must end in a controlled panic, got {got:?}"));
+                        }
+                    } else if got != Some(None) {
+                        return Err(format!("step {step}: module_tags().nth({k}) of {} modules: expected None, got {got:?}", mods.len()));
+                    }
+                    if !must_panic {
+                        let c = mb2_model::panics::catch(|| mbi.module_tags().count());
+                        if c != Some(mods.len()) {
+                            return Err(format!("step {step}: module_tags().count(): expected {}, got {c:?}", mods.len()));
+                        }
+                    }
+                }
+                Op::Modules => {
+                    let got = mb2_model::panics::catch(|| mbi.module_tags().map(|t| t as *const _ as *const u8 as usize - base).collect::<Vec<_>>());
+                    let mut want = Vec::new();
+                    let mut must_panic = w.panic_at.is_some();
+                    for it in w.items.iter().filter(|i| i.typ == 3) {
+                        if it.size < 16 {
+                            must_panic = true;
+                            break;
+                        }
+                        want.push(it.off);
+                    }
+                    match (got, must_panic) {
+                        (None, true) => {}
+                        (Some(g), false) if g == want => {}
+                        (g, _) => return Err(format!("step {step}: module_tags(): expected {} {want:?}, got {g:?}", if must_panic { "panic after" } else { "exactly" })),
+                    }
+                }
+            }
+
+        }
+        Ok(())
+    }
 }
 
 fn eval_hist(c: &HistCase, obs: &mut Obs) -> Result<(), String> {
@@ -147,166 +327,30 @@ fn eval_hist(c: &HistCase, obs: &mut Obs) -> Result<(), String> {
         return Ok(());
     }
     let a = Aligned::new(bytes);
-    let mbi = match mb2_model::panics::catch(|| unsafe { multiboot2::BootInformation::load(a.as_ptr().cast()) }) {
-        Some(Ok(m)) => m,
-        other => return Err(format!("model says the region loads, load returned {:?}", other.map(|r| r.err()))),
+    // a second boot information that is alive at the same time (same total
+    // size, other tag order): what is done to one must not show in the other
+    let other_bytes = c.other.as_ref().map(|h| h.0.clone()).filter(|b| predict_mbi_load(b) == MbiLoad::Ok);
+    let b = other_bytes.as_ref().map(|x| Aligned::new(x));
+    let load = |a: &Aligned| match mb2_model::panics::catch(|| unsafe { multiboot2::BootInformation::load(a.as_ptr().cast()) }) {
+        Some(Ok(m)) => Ok(m),
+        other => Err(format!("model says the region loads, load returned {:?}", other.map(|r| r.err()))),
     };
-    let w = walk_mbi(bytes);
-    let base = a.as_ptr() as usize;
-    // model iterator = index into the walk; None = poisoned by a panic
-    let mut model: Vec<Option<usize>> = Vec::new();
-    let mut real: Vec<Option<multiboot2::TagIter>> = Vec::new();
-    let mut mid_clone = false;
-    for (step, op) in c.ops.iter().enumerate() {
-        match op {
-            Op::Fresh => {
-                if real.len() < 4 {
-                    real.push(Some(mbi.tags()));
-                    model.push(Some(0));
-                }
-            }
-            Op::Clone(i) => {
-                if real.is_empty() || real.len() >= 4 {
-                    continue;
-                }
-                let i = *i as usize % real.len();
-                if let (Some(r), Some(m)) = (&real[i], model[i]) {
-                    if m > 0 && m < w.items.len() {
-                        mid_clone = true;
-                    }
-                    real.push(Some(r.clone()));
-                    model.push(Some(m));
-                }
-            }
-            Op::Next(i) => {
-                if real.is_empty() {
-                    continue;
-                }
-                let i = *i as usize % real.len();
-                let (Some(r), Some(m)) = (real[i].as_mut(), model[i]) else { continue };
-                let got = mb2_model::panics::catch(|| r.next().map(|t| (t as *const _ as *const u8 as usize - base, u32::from(t.header().typ), t.header().size, t.payload().as_ptr() as usize - base, t.payload().len())));
-                if m < w.items.len() {
-                    let it = w.items[m];
-                    let want = Some(Some((it.off, it.typ, it.size, it.off + 8, it.size as usize - 8)));
-                    if got != want {
-                        return Err(format!("step {step}: iterator {i} at index {m}: expected {want:?}, got {got:?}"));
-                    }
-                    model[i] = Some(m + 1);
-                } else if w.panic_at == Some(m) {
-                    if got.is_some() {
-                        return Err(format!("step {step}: iterator {i}: the walk must end in a controlled panic at index {m}, got {got:?}"));
-                    }
-                    // state after a panic is unspecified: retire this iterator
-                    model[i] = None;
-                    real[i] = None;
-                } else {
-                    // exhausted: must stay exhausted
-                    if got != Some(None) {
-                        return Err(format!("step {step}: iterator {i} is exhausted after {m} items, got {got:?}"));
-                    }
-                }
-            }
-            Op::Nth(i, k) => {
-                if real.is_empty() {
-                    continue;
-                }
-                let i = *i as usize % real.len();
-                let k = (*k % 5) as usize;
-                let (Some(r), Some(m)) = (real[i].as_mut(), model[i]) else { continue };
-                let got = mb2_model::panics::catch(|| r.nth(k).map(|t| t as *const _ as *const u8 as usize - base));
-                let target = m + k;
-                // the model panics if the walk's panic point lies at or before the target
-                let must_panic = w.panic_at.map_or(false, |p| p >= m && p <= target);
-                if must_panic {
-                    if got.is_some() {
-                        return Err(format!("step {step}: iterator {i}: nth({k}) from index {m} must end in a controlled panic (walk panics at {:?}), got {got:?}", w.panic_at));
-                    }
-                    model[i] = None;
-                    real[i] = None;
-                } else if target < w.items.len() {
-                    if got != Some(Some(w.items[target].off)) {
-                        return Err(format!("step {step}: iterator {i}: nth({k}) from index {m}: expected the tag at offset {}, got {got:?}", w.items[target].off));
-                    }
-                    model[i] = Some(target + 1);
-                } else {
-                    if got != Some(None) {
-                        return Err(format!("step {step}: iterator {i}: nth({k}) from index {m} of {} items: expected None, got {got:?}", w.items.len()));
-                    }
-                    model[i] = Some(w.items.len());
-                }
-            }
-            Op::Count(i) | Op::Last(i) => {
-                if real.is_empty() {
-                    continue;
-                }
-                let i = *i as usize % real.len();
-                let (Some(r), Some(m)) = (real[i].as_ref(), model[i]) else { continue };
-                let m = m.min(w.items.len());
-                let must_panic = w.panic_at.map_or(false, |p| p >= m);
-                if let Op::Count(_) = op {
-                    let got = mb2_model::panics::catch(|| r.clone().count());
-                    let want = if must_panic { None } else { Some(w.items.len() - m) };
-                    if got != want {
-                        return Err(format!("step {step}: iterator {i}: clone().count() at index {m}: expected {want:?}, got {got:?}"));
-                    }
-                } else {
-                    let got = mb2_model::panics::catch(|| r.clone().last().map(|t| t as *const _ as *const u8 as usize - base));
-                    let want = if must_panic { None } else { Some(if m < w.items.len() { w.items.last().map(|x| x.off) } else { None }) };
-                    if got != want {
-                        return Err(format!("step {step}: iterator {i}: clone().last() at index {m}: expected {want:?}, got {got:?}"));
-                    }
-                }
-            }
-            Op::ModulesNth(k) => {
-                let k = (*k % 4) as usize;
-                let mut mods = Vec::new();
-                let mut must_panic = w.panic_at.is_some();
-                for it in w.items.iter().filter(|i| i.typ == 3) {
-                    if it.size < 16 {
-                        must_panic = true;
-                        break;
-                    }
-                    mods.push(it.off);
-                }
-                let got = mb2_model::panics::catch(|| mbi.module_tags().nth(k).map(|t| t as *const _ as *const u8 as usize - base));
-                // nth(k) only needs the walk up to the k-th module
-                if k < mods.len() {
-                    if got != Some(Some(mods[k])) {
-                        return Err(format!("step {step}: module_tags().nth({k}): expected the module at {}, got {got:?}", mods[k]));
-                    }
-                } else if must_panic {
-                    if got.is_some() {
-                        return Err(format!("step {step}: module_tags().nth({k}) must end in a controlled panic, got {got:?}"));
-                    }
-                } else if got != Some(None) {
-                    return Err(format!("step {step}: module_tags().nth({k}) of {} modules: expected None, got {got:?}", mods.len()));
-                }
-                if !must_panic {
-                    let c = mb2_model::panics::catch(|| mbi.module_tags().count());
-                    if c != Some(mods.len()) {
-                        return Err(format!("step {step}: module_tags().count(): expected {}, got {c:?}", mods.len()));
-                    }
-                }
-            }
-            Op::Modules => {
-                let got = mb2_model::panics::catch(|| mbi.module_tags().map(|t| t as *const _ as *const u8 as usize - base).collect::<Vec<_>>());
-                let mut want = Vec::new();
-                let mut must_panic = w.panic_at.is_some();
-                for it in w.items.iter().filter(|i| i.typ == 3) {
-                    if it.size < 16 {
-                        must_panic = true;
-                        break;
-                    }
-                    want.push(it.off);
-                }
-                match (got, must_panic) {
-                    (None, true) => {}
-                    (Some(g), false) if g == want => {}
-                    (g, _) => return Err(format!("step {step}: module_tags(): expected {} {want:?}, got {g:?}", if must_panic { "panic after" } else { "exactly" })),
-                }
-            }
-        }
+    let m0 = load(&a)?;
+    let m1 = match b.as_ref() {
+        Some(b) => Some(load(b)?),
+        None => None,
+    };
+    let mut objs = vec![Obj::new(&m0, a.as_ptr() as usize, bytes)];
+    if let (Some(m1), Some(b), Some(ob)) = (m1.as_ref(), b.as_ref(), other_bytes.as_ref()) {
+        objs.push(Obj::new(m1, b.as_ptr() as usize, ob));
     }
+    for (step, op) in c.ops.iter().enumerate() {
+        let which = c.on.get(step).copied().unwrap_or(0) as usize % objs.len();
+        objs[which].apply(step, op).map_err(|m| if objs.len() > 1 { format!("boot information {which} of 2 alive: {m}") } else { m })?;
+    }
+    let mid_clone = objs.iter().any(|o| o.mid_clone);
+    let two = objs.len() > 1 && c.on.iter().any(|x| x % 2 == 1) && c.on.iter().any(|x| x % 2 == 0);
+    obs.class(if two { "two-alive" } else { "one-alive" });
     obs.class(if mid_clone { "!clone-mid-walk" } else { "no-mid-clone" });
     if mid_clone {
         obs.nontrivial(fnv(format!("{:?}{}", c.ops, hex(bytes)).as_bytes()));
@@ -329,23 +373,49 @@ fn hist_strategy(_: &Ctx) -> BoxedStrategy<HistCase> {
     (
         gen::mbi_spec(8, 1),
         proptest::collection::vec(op, 1..=24),
+        // second object: none / the same tags rotated by k (same total size) / an independent one
+        prop_oneof![2 => Just(0u8), 3 => 1u8..8, 1 => Just(255u8)],
+        gen::mbi_spec(8, 1),
+        proptest::collection::vec(0u8..2, 24),
     )
-        .prop_map(|(mut s, mut ops)| {
-            for t in &mut s.tags {
-                t.n = t.n.min(8);
-                if t.kind == 7 {
-                    t.kind = 3;
-                }
-                for tw in &mut t.tweaks {
-                    if tw.2 & 1 != 0 {
-                        tw.0 = 0;
+        .prop_map(|(mut s, mut ops, second, mut s2, mut on)| {
+            let tame = |s: &mut gen::MbiSpec| {
+                for t in &mut s.tags {
+                    t.n = t.n.min(8);
+                    if t.kind == 7 {
+                        t.kind = 3;
+                    }
+                    for tw in &mut t.tweaks {
+                        if tw.2 & 1 != 0 {
+                            tw.0 = 0;
+                        }
                     }
                 }
-            }
-            s.end = gen::EndPolicy::Valid;
-            s.ts = gen::TsTweak::None;
+                s.end = gen::EndPolicy::Valid;
+                s.ts = gen::TsTweak::None;
+            };
+            tame(&mut s);
+            tame(&mut s2);
             ops.insert(0, Op::Fresh);
-            HistCase { region: Hex(gen::build_mbi(&s)), ops }
+            on.insert(0, 0);
+            let other = match second {
+                0 => None,
+                255 => Some(Hex(gen::build_mbi(&s2))),
+                k => {
+                    let mut r = s.clone();
+                    if !r.tags.is_empty() {
+                        let k = k as usize % r.tags.len();
+                        r.tags.rotate_left(k);
+                    }
+                    Some(Hex(gen::build_mbi(&r)))
+                }
+            };
+            if other.is_some() {
+                // the second object gets a fresh iterator early on
+                ops.insert(1, Op::Fresh);
+                on.insert(1, 1);
+            }
+            HistCase { region: Hex(gen::build_mbi(&s)), ops, other, on }
         })
         .boxed()
 }
@@ -365,7 +435,7 @@ pub fn subs() -> Vec<Box<dyn Sub>> {
         }),
         Box::new(PropSub::<HistCase> {
             name: "histories",
-            rule: "up to 24 operations {next(i), clone(i), fresh, nth(i,k), clone(i).count(), clone(i).last(), module_tags, module_tags().nth(k)/count()} over up to 4 iterators on one region; model = index into the reference walk; checks repeatability across clones/fresh iterators, exhaustion, panic step. Non-trivial = history with a clone taken mid-walk; distinct by (ops, region)",
+            rule: "up to 24 operations {next(i), clone(i), fresh, nth(i,k), clone(i).count(), clone(i).last(), module_tags, module_tags().nth(k)/count()} over up to 4 iterators per boot information; in two thirds of the cases a second boot information is alive at the same time (the same tags rotated, hence the same total size, or an independent one) and each operation addresses one of the two; model = index into the reference walk of the addressed object; checks repeatability across clones/fresh iterators, exhaustion, panic step. Non-trivial = history with a clone taken mid-walk; distinct by (ops, region)",
             profiles: Profiles::Both,
             quick: 30000,
             thorough: 2500000,
